@@ -10,10 +10,19 @@ const DELAYS: &[u64] = &[0, 0, 1, 2, 3, 5, 8, 13, 30, 60, 100, 300, 1000, 3000];
 
 fn small_go(rng: &mut Rng, dense: bool) -> Limits {
     let mut l = Limits::default();
-    match rng.below(4) {
+    match rng.below(6) {
         0 => l.depth = Some(rng.range(1, if dense { 2 } else { 3 })),
         1 => l.nodes = Some(rng.range(1, 3000)),
         2 => l.movetime = Some(rng.below(4)),
+        3 | 4 => {
+            // clock limits (the time-management branch ends the search without a stop)
+            l.wtime = Some(rng.below(120));
+            l.btime = Some(rng.below(120));
+            if rng.chance(1, 3) {
+                l.winc = Some(rng.below(8));
+                l.binc = Some(rng.below(8));
+            }
+        }
         _ => {
             l.depth = Some(rng.range(1, 3));
             l.nodes = Some(rng.range(1, 2000));
